@@ -58,7 +58,7 @@ func (w *c19World) Setup(s *dsim.Sim) {
 	t := s.Tape
 	w.cw = sig.NewClientWorld(s, []string{"A", "B", "M"})
 	arm := []int{0, 50, 100}[t.Draw(3, "arm-pct")]
-	s.ArmFraction(arm, []string{"bl:client/client.go"})
+	s.ArmFraction(arm, []string{"bl:bifrost/signaling/rpc/client/client.go"})
 	w.maxOps = 6 + t.Draw(30, "max-ops")
 	w.cw.Net.Handler = func(st *sig.Stream) {
 		// hostile relay: remember the stream, drain what the client sends
